@@ -52,7 +52,7 @@ EXPLANATION = (
     "stale responses flushed before sending; R5 configure/inquire: specifier mismatch and non-zero error code raise "
     "LssError before the normal exit, silence raises LssError; R6 ListMessageNeedResponse equals the set of confirmed "
     "services; fast scan: probe order and constants (bit check 128 first, bits 31..0, LSSNext = (sub + 1) mod 4 "
-    "evaluated for sub = 0..3, bit set exactly when unanswered, success returns the four accumulated words); R7 structural assumptions shared by all properties: no class-level mutable object is mutated in place by instances, no method re-runs the constructor, logging statements cannot raise (typed eager formatting, divisions), no mutable default argument is kept or mutated, no new truth-value test of a None-able number."
+    "evaluated for sub = 0..3, bit set exactly when unanswered, success returns the four accumulated words); R7 structural assumptions shared by all properties: no class-level mutable object is mutated in place by instances, no method re-runs the constructor, logging statements cannot raise (typed eager formatting, divisions), no mutable default argument is kept or mutated, no new truth-value test of a None-able number, a look-up memory the pinned tree does not have is keyed by all its inputs (arithmetic keys folded over a grid of addresses) and, on the serving side, emptied somewhere."
     ' R4 also: every LSS response specifier of CiA 305 passes any early exit of on_message_received.'
     ' R3 also: the delegating methods do not re-bind their parameters.'
 )
